@@ -61,8 +61,11 @@ def freqOfPeriod (u : TimeUnit) (x : Rat) : Rat :=
 def rateOfInterval (u : TimeUnit) (ps : Int) : Rat :=
   freqOfPeriod u (F64.fdiv (F64.ofInt ps) (cf u))
 
-/-- `Frequency.to_period()`: `np.int64((1 / self) * 1e12)` — truncation, not rounding -/
-def toPeriod (r : Rat) : Int := F64.trunc (F64.fmul (F64.fdiv 1 r) (F64.ofInt (10 ^ 12)))
+/-- `Frequency.to_period()`: `np.int64(np.round((1 / self) * 1e12))` — nearest picosecond, ties to even
+(the variant before repo commit f90f922 truncated: `toPeriodTrunc`, kept for the counterexample) -/
+def toPeriod (r : Rat) : Int := F64.rint (F64.fmul (F64.fdiv 1 r) (F64.ofInt (10 ^ 12)))
+
+def toPeriodTrunc (r : Rat) : Int := F64.trunc (F64.fmul (F64.fdiv 1 r) (F64.ofInt (10 ^ 12)))
 
 /-- `TimeArray(x, time_unit=u)` for a binary64 `x` -/
 def psOfFloat (u : TimeUnit) (x : Rat) : Int := F64.rint (F64.fmul x (cf u))
